@@ -110,7 +110,24 @@ Section Builder.
   Variable d : dump.
   Let E := d_env d.
 
-  (** ** util.ImportNames.TypeName / IsExternal *)
+  (** ** util.ImportNames.TypeName / IsExternal.
+      TypeName renders pointer/basic/named itself and everything else through
+      types.TypeString with the import table as qualifier; both agree on
+      pointers, so one recursion covers them. Struct, interface and function
+      type literals are taken from the oracle string and are inside the model
+      only when they mention no package-qualified name. *)
+  Fixpoint strip_ellipsis (s : str) : str :=
+    match s with
+    | [] => []
+    | c :: r =>
+        match r with
+        | c2 :: c3 :: r' => if (c =? 46) && (c2 =? 46) && (c3 =? 46) then strip_ellipsis r' else c :: strip_ellipsis r
+        | _ => c :: strip_ellipsis r
+        end
+    end.
+  Definition has_qualified_name (s : str) : bool :=
+    existsb (N.eqb 47) s || existsb (N.eqb 46) (strip_ellipsis s).
+
   Fixpoint type_name (t : ty) : outcome str :=
     match t with
     | TPtr _ e => do s <- type_name e; Ok ([42] ++ s)
@@ -120,13 +137,29 @@ Section Builder.
         | Some n =>
             if n_has_pkg n then
               match lookup_name d (n_pkg_path n) with
-              | Some pn => Ok (pn ++ [46] ++ n_name n)
+              | Some pn => match pn with
+                           | [] => Ok (n_name n)
+                           | _ => Ok (pn ++ [46] ++ n_name n)
+                           end
               | None => Ok (n_name n)
               end
             else Ok (n_name n)        (* predeclared type (error): no package *)
         | None => Ok (s2b "invalid type")
         end
-    | _ => Ok (type_string E t)
+    | TSlice _ e => do s <- type_name e; Ok (s2b "[]" ++ s)
+    | TArray _ n e => do s <- type_name e; Ok ([91] ++ dec n ++ [93] ++ s)
+    | TMap _ k v => do ks <- type_name k; do vs <- type_name v; Ok (s2b "map[" ++ ks ++ [93] ++ vs)
+    | TChan _ dir e =>
+        do s <- type_name e;
+        (* types.SendRecv = 0, SendOnly = 1, RecvOnly = 2; chan (<-chan T) is parenthesised *)
+        if dir =? 1 then Ok (s2b "chan<- " ++ s)
+        else if dir =? 2 then Ok (s2b "<-chan " ++ s)
+        else match e with
+             | TChan _ 2 _ => Ok (s2b "chan (" ++ s ++ [41])
+             | _ => Ok (s2b "chan " ++ s)
+             end
+    | TStruct s _ | TIface s _ | TFunc s _ | TOther s =>
+        if has_qualified_name s then Unsup (s2b "type literal mentioning a package-qualified name: " ++ s) else Ok s
     end.
 
   Definition is_external (t : ty) : outcome bool :=
